@@ -93,7 +93,7 @@ CHECKS = {
             "DESIGN.md §4 C15", "E3+E1"),
     "C16": ("exploration",
             "bounded exhaustive enumeration of (protocol x configured name x strict x client server name x DoH path x Host/TLS source) against a grammar-level reference, plus enumeration of all request/reconfigure histories up to a depth on the real server",
-            "Every combination of 6 protocols, 3 configured server names, strict on/off, ~95 generated client server names and, for DoH, 48 paths with the name taken from TLS state or Host header; safety (ClientID only from a well-formed source, lower-cased; plain/DNSCrypt never), failure on invalid labels, strict rejection and liveness of the well-formed shapes; pre-request hook turns errors into SERVFAIL. Histories: every sequence of <=5 (thorough: also <=6 over the smaller alphabet) requests over the six protocols (with/without ClientID, two DNS message IDs) and Server.Reconfigure on a fresh real server, contexts numbered by the current proxy as its listeners do; each request must be processed and logged under the ClientID it carries itself.",
+            "Every combination of 6 protocols, 3 configured server names, strict on/off, ~95 generated client server names and, for DoH, 53 paths with the name taken from TLS state or Host header; safety (ClientID only from a well-formed source, lower-cased; plain/DNSCrypt never), failure on invalid labels, strict rejection and liveness of the well-formed shapes; pre-request hook turns errors into SERVFAIL. Histories: every sequence of <=5 (thorough: also <=6 over the smaller alphabet) requests over the six protocols (with/without ClientID, two DNS message IDs) and Server.Reconfigure on a fresh real server, contexts numbered by the current proxy as its listeners do; each request must be processed and logged under the ClientID it carries itself.",
             "path.Clean and RFC 1123 label syntax are the reference; domain-part case differences and empty name under strict are accepted either way.",
             "DESIGN.md §4 C16", "E1-stateless"),
     "C17": ("exploration",
